@@ -92,8 +92,9 @@ def directed_histories():
     return out
 
 def import_histories():
-    """`imports:` (local, with and without symlink) is not in the model: these histories are checked on the
-    implementation alone — the last run against the same run in an empty build directory, identical re-run hits"""
+    """`imports:`: the symlinked form is not in the model; all of these histories are checked on the
+    implementation alone — the last run against the same run in an empty build directory, identical re-run hits —
+    and the plain ones (local import without symlink, modelled) also step by step against the cache machine"""
     out = []
     for symlink in (True, False):
         f = base_project()
@@ -165,6 +166,8 @@ def run(rep, tier, seed, rng):
     laze = core.build_impl(); driver = core.build_model()
     n = 160 if tier == "quick" else 2500
     named = directed_histories()
+    # local imports without symlink are in the model: these histories are also compared step by step with the machine
+    named += [(nm, h) for nm, h in import_histories() if nm.startswith("plain")]
     hs = [h for _, h in named] + [hist.gen_history(rng) for _ in range(n)]
     names = [nm for nm, _ in named] + [None] * n
     with ThreadPoolExecutor(core.NCPU) as ex:
@@ -198,6 +201,16 @@ def run(rep, tier, seed, rng):
             rep.violation("side condition of C08_hit_is_fresh fails: loaded contexts with equal names", data, found_input=False); m = m[1:]
         for x in m: kinds[x["kind"]] += 1
         dis = hist.compare(h, steps, m)
+        if dis and not pv and dis[0][0] < len(h["ops"]) - 1 and any("served from the cache" in d_ for _, d_ in dis):
+            # the machine regenerates where the implementation serves the cache, before the end of the history: make that
+            # step the last one and ask the property itself (the run against the same run in an empty build directory)
+            h2 = dict(h, ops=h["ops"][:dis[0][0] + 1])
+            _, steps2, fresh2 = hist.execute(laze, h2)
+            pv = ["(history cut after step %d) " % dis[0][0] + x for x in hist.property_check(h2, steps2, fresh2)]
+            if pv:
+                nprop += 1
+                rep.violation("after this history the last run differs from the same run in an empty build directory: " + "; ".join(pv)[:600],
+                              dict(data, history=desc[:dis[0][0] + 1], full=h2), found_input=True)
         if dis:
             ndis += 1
             rep.violation("history: implementation and cache machine differ at step %d: %s" % (dis[0][0], "; ".join(d for _, d in dis)[:500]),
